@@ -525,6 +525,10 @@ pub fn emit_decls(decls: &[Decl], e: &mut Emit) {
 pub struct Rule {
     pub selectors: Vec<Complex>,
     pub decls: Vec<Decl>,
+    /// conditional group rules nested in the style rule, each holding declarations only:
+    /// `.a { color: red; @media (min-width: 75rpx) { width: 75rpx } }`
+    #[serde(default)]
+    pub nested: Vec<(String, Prelude, Vec<Decl>)>,
 }
 
 #[derive(Clone, Debug, PartialEq, Serialize, Deserialize)]
@@ -749,6 +753,15 @@ impl Node {
                 e.slot(Slot::Opt);
                 e.open(Bracket::Curly);
                 emit_decls(&r.decls, e);
+                for (name, prelude, decls) in &r.nested {
+                    e.tok(TokKind::AtKeyword(name.clone()));
+                    prelude.emit(e);
+                    e.slot(Slot::Opt);
+                    e.open(Bracket::Curly);
+                    emit_decls(decls, e);
+                    e.close(Bracket::Curly);
+                    e.slot(Slot::Opt);
+                }
                 e.close(Bracket::Curly);
             }
             Node::Host(decls) => {
